@@ -13,6 +13,7 @@
 import json
 import os
 import random
+import shutil
 import time
 from concurrent.futures import ThreadPoolExecutor
 
@@ -301,6 +302,16 @@ def nontrivial(c):
 
 def run(tier):
     chk = core.Check("C15", tier, "model_checking")
+    # a private scratch directory per run (concurrent runs of the same check must not share files)
+    chk.work = os.path.join(chk.work, "run-%d" % os.getpid())
+    os.makedirs(chk.work, exist_ok=True)
+    try:
+        return _run(chk, tier)
+    finally:
+        shutil.rmtree(chk.work, ignore_errors=True)
+
+
+def _run(chk, tier):
     bindir = core.cargo_build(bins=["iohelp"])
     # 1. model checking + generation
     fams = FAMILIES[tier]
